@@ -536,7 +536,10 @@ def row_uuid_error_tagged_exact(c: Ctx) -> None:
 
 def _tz_variants(rng):  # noqa: ANN001, ANN202
     return (UTC, datetime.timezone(datetime.timedelta(hours=14)), datetime.timezone(datetime.timedelta(hours=-12)),
-            datetime.timezone(datetime.timedelta(minutes=rng.randint(-14 * 60 + 1, 14 * 60 - 1))))
+            datetime.timezone(datetime.timedelta(minutes=rng.randint(-14 * 60 + 1, 14 * 60 - 1))),
+            # UTC offsets with a sub-second (whole-millisecond) part: wall-clock seconds/milliseconds differ from those of the instant
+            datetime.timezone(datetime.timedelta(hours=1, milliseconds=500)), datetime.timezone(-datetime.timedelta(milliseconds=1)),
+            datetime.timezone(datetime.timedelta(seconds=rng.randint(-3600, 3600), milliseconds=rng.randint(1, 999))))
 
 
 def row_time(c: Ctx) -> None:
